@@ -517,3 +517,13 @@ case(C + "invert_classes", params={"classes": Dict(STR, TupleOf(STR))}, returns=
      canaries={"empty": "len(result) == 0", "every-class-wins": "all(all(result[classes[n][j]] == n for j in range(len(classes[n]))) for n in classes)"},
      gen=lambda rng: {"classes": {k: list(rng.sample(["a", "b", "c"], rng.randint(0, 2))) for k in rng.sample(["x", "y", "z"], rng.randint(0, 3))}},
      build=lambda d: {"classes": {k: tuple(v) for k, v in d["classes"].items()}})
+
+# ---- len(S) == 1 from "x in S and everything in S is x" (choice-function fact of only(S); round 4) ---------------------------------
+case(C + "all_same_len", params={"s": Set(STR), "x": STR}, returns=INT, requires=["x in s", "all(g == x for g in s)"],
+     ensures={"one": "result == 1"}, canaries={"two": "result == 2"},
+     gen=lambda rng: {"x": rng.choice(["a", "b"])}, build=lambda d: {"s": {d["x"]}, "x": d["x"]})
+case(C + "all_same_len", name="maybe-empty", params={"s": Set(STR), "x": STR}, returns=INT, requires=["all(g == x for g in s)"],
+     ensures={"at-most-one": "result <= 1"}, canaries={"one": "result == 1"},
+     gen=lambda rng: {"x": "a", "e": rng.random() < 0.5}, build=lambda d: {"s": set() if d["e"] else {d["x"]}, "x": d["x"]})
+case(C + "singleton_len", params={"x": STR}, returns=INT, ensures={"one": "result == 1"}, canaries={"zero": "result == 0"},
+     gen=lambda rng: {"x": rng.choice(["a", "b"])})
